@@ -378,3 +378,19 @@ func runReplayFile(path string) (*ReplayFile, *Violation, error) {
 	v, err := f(rf.Case)
 	return &rf, v, err
 }
+
+// fuzzFail is Rec.Check for native fuzz targets: known findings pass, anything
+// else is written as a replay file (name carries a hash of the case) and fails.
+func fuzzFail(t fataler, id, kind string, c any, v *Violation) {
+	if _, ok := isKnown(id, v.Sig); ok {
+		return
+	}
+	cb, _ := json.Marshal(c)
+	rf := ReplayFile{Property: id, Kind: kind, Sig: v.Sig, Msg: v.Msg, Case: cb}
+	b, _ := json.MarshalIndent(rf, "", " ")
+	dir := replayDir(id)
+	_ = os.MkdirAll(dir, 0o755)
+	path := filepath.Join(dir, fmt.Sprintf("%s-%s-fuzz-%016x.json", id, kind, h64(string(cb))))
+	_ = os.WriteFile(path, b, 0o644)
+	t.Fatalf("VIOLATION %s sig=%s replay=%s: %s", id, v.Sig, path, v.Msg)
+}
